@@ -129,3 +129,35 @@ EXAMPLES = [
     (dict(height=3, width=3, problem=_EX_PROBLEM),
      {(y, x): _EX_ANSWER[y][x] == "." for y in range(3) for x in range(3)}),
 ]
+
+
+def obeys(inst, answer):
+    """rule checker for one answer {str((y, x)): is_white}"""
+    h, w = inst["height"], inst["width"]
+    p = inst["problem"]
+    white = {(y, x): bool(answer[str((y, x))]) for y in range(h) for x in range(w)}
+    for py in range(h + 1):
+        for px in range(w + 1):
+            if p[py][px] >= 0 and sum(1 for c in _touching(h, w, py, px) if not white[c]) != p[py][px]:
+                return False
+    return _connected(h, w, white)
+
+
+def _serpentine(h, w):
+    """unshaded cells: a corridor winding through every other row (the farthest cell is about h*w/2 steps from the first)"""
+    white = {(y, x): False for y in range(h) for x in range(w)}
+    for y in range(0, h, 2):
+        for x in range(w):
+            white[(y, x)] = True
+        if y + 1 < h and y + 2 < h:
+            white[(y + 1, (w - 1) if (y // 2) % 2 == 0 else 0)] = True
+    return white
+
+
+def witness_instances(tier):
+    """boards too large for the brute force, fully clued from a winding corridor (needs a long chain inside the region,
+    longer than height + width) and from its transpose"""
+    shapes = [(5, 7), (7, 5)] + ([(7, 7), (5, 9)] if tier != "quick" else [])
+    for (h, w) in shapes:
+        white = _serpentine(h, w)
+        yield dict(height=h, width=w, problem=_clues_of(h, w, white), _witness={str(k): v for k, v in white.items()})
